@@ -2,6 +2,7 @@ import ArrProofs.Lemmas.C10Basic
 import ArrProofs.Lemmas.C10Heap
 import ArrProofs.Lemmas.C10Tim
 import ArrProofs.Lemmas.C10Query
+import ArrProofs.Lemmas.C10Axis
 /-!
 # C10 — all sort kinds give the same ordered rearrangement; order queries agree
 
@@ -14,12 +15,15 @@ All theorems are for **every lane of every length** over any element type whose 
 order (`Cmp.Lawful`; `Cmp.int_lawful` is the instance the tie runs on).  "Never panics" includes "the loop fuel of the
 model suffices" (running out of fuel is modelled as a panic).
 
-Scope: lane-level (flat, `axis = None`) forms and their rank-1 `axis = 0 / -1` forms.  The n-D `axis = k` forms go
-through `apply_along_axis` (`ArrModel.Axis`, owned by the lead); `sort`/`argsort`/`unique`/`argExtreme` take it as the
-parameter `along`, and the theorems below about the lane functions are exactly what that lifting needs.
+Scope: the lane-level (flat, `axis = None`) forms, and the `axis = Some(k)` forms of `sort`, `argsort`, `argmax`,
+`argmin` for every axis (either spelling) of every array of any rank whose axes all have length >= 1, lifted through
+the lead's central lemma for `apply_along_axis` (`applyAlongAxis_spec`).  `unique(axis)` is modelled and tied but has
+no theorem: lanes with different numbers of distinct values do not fit one array, the code then answers an error or
+a reshaped buffer, and the property statement does not say what it should be.  Arrays with a zero-length axis and the
+axis forms are covered by the tie only.
 -/
 namespace ArrModel.C10
-open ArrModel ArrModel.Sort
+open ArrModel ArrModel.Sort Arr
 
 variable {α : Type} {c : Cmp α}
 
@@ -137,37 +141,50 @@ theorem resolveKind_default : resolveKind .none = .ok .Quicksort := rfl
 /-! ## `sort` (public operation) -/
 
 /-- flat form, any input shape, any accepted selector spelling: the 1-D array of the sorted elements -/
-theorem sort_flat (h : c.Lawful) (along : Along α α) (a : Arr α) (ka : KindArg) (k : SortKind)
+theorem sort_flat (h : c.Lawful) (zero : α) (a : Arr α) (ka : KindArg) (k : SortKind)
     (hk : resolveKind ka = .ok k) :
-    Sort.sort along c a none ka = .ok (Arr.flat (a.elems.mergeSort c.le)) := by
+    Sort.sort c zero a none ka = .ok (Arr.flat (a.elems.mergeSort c.le)) := by
   simp only [Sort.sort, hk, Res.bind_ok, sortLane, sorts_agree h k, Res.map]
 
-/-- rank-1 array with `axis = 0` or `-1` (through `apply_along_axis`): same result -/
-theorem sort_axis_1d (h : c.Lawful) (a : Arr α) (ha : a.ndim = 1) (ax : Int) (hax : ax = 0 ∨ ax = -1) (ka : KindArg)
-    (k : SortKind) (hk : resolveKind ka = .ok k) :
-    Sort.sort along1D c a (some ax) ka = .ok (Arr.flat (a.elems.mergeSort c.le)) := by
-  have hn : normAxis a.ndim ax = 0 := by rcases hax with rfl | rfl <;> simp [normAxis, ha]
-  simp only [Sort.sort, hk, Res.bind_ok, hn, along1D, sortLane, sorts_agree h k, Res.map]
-  simp [Arr.flat, ha]
+/-- **axis form, every axis of every rank** (`k` or `k - rank`): the shape is kept and every lane along the axis is
+replaced by its sorted rearrangement — the same for all four kinds and all selector spellings -/
+theorem sort_axis_spec (h : c.Lawful) (zero : α) (a : Arr α) (ax : Int) (ka : KindArg) (k : SortKind)
+    (hk : resolveKind ka = .ok k) (hwf : a.WF) (hnz : 0 ∉ a.shape) (hax : normalizeAxis a.ndim ax < a.ndim) :
+    ∃ r, Sort.sort c zero a (some ax) ka = .ok r ∧ r.shape = a.shape ∧ r.WF ∧
+      ∀ cd, inRange a.shape cd = true →
+        laneOf r (normalizeAxis a.ndim ax) cd = (laneOf a (normalizeAxis a.ndim ax) cd).mergeSort c.le := by
+  simp only [Sort.sort, hk, Res.bind_ok]
+  exact along_lanewise a zero zero _ (sortLane c k) (fun l => l.mergeSort c.le) hwf hax hnz
+    (fun lane _ => ⟨by simp only [sortLane, Arr.flat, sorts_agree h k, Res.map], List.length_mergeSort lane⟩)
 
 /-- an unknown selector name is an error value for `sort` and `argsort`, whatever the array and axis -/
-theorem sort_bad_kind (along : Along α α) (a : Arr α) (axis : Option Int) (ka : KindArg) (e : Err)
-    (hk : resolveKind ka = .err e) : Sort.sort along c a axis ka = .err e := by
+theorem sort_bad_kind (zero : α) (a : Arr α) (axis : Option Int) (ka : KindArg) (e : Err)
+    (hk : resolveKind ka = .err e) : Sort.sort c zero a axis ka = .err e := by
   simp only [Sort.sort, hk, Res.bind_err]
 
-theorem argsort_bad_kind (along : Along α Nat) (a : Arr α) (axis : Option Int) (ka : KindArg) (e : Err)
-    (hk : resolveKind ka = .err e) : Sort.argsort along c a axis ka = .err e := by
+theorem argsort_bad_kind (zero : α) (a : Arr α) (axis : Option Int) (ka : KindArg) (e : Err)
+    (hk : resolveKind ka = .err e) : Sort.argsort c zero a axis ka = .err e := by
   simp only [Sort.argsort, hk, Res.bind_err]
 
 /-- the result of the flat `sort` satisfies the shape/count invariant and is a fixed point of `sort` -/
-theorem sort_flat_idem (h : c.Lawful) (along : Along α α) (a : Arr α) (ka ka' : KindArg) (k k' : SortKind)
+theorem sort_flat_idem (h : c.Lawful) (zero : α) (a : Arr α) (ka ka' : KindArg) (k k' : SortKind)
     (hk : resolveKind ka = .ok k) (hk' : resolveKind ka' = .ok k') (r : Arr α)
-    (hr : Sort.sort along c a none ka = .ok r) : r.WF ∧ Sort.sort along c r none ka' = .ok r := by
-  rw [sort_flat h along a ka k hk] at hr
+    (hr : Sort.sort c zero a none ka = .ok r) : r.WF ∧ Sort.sort c zero r none ka' = .ok r := by
+  rw [sort_flat h zero a ka k hk] at hr
   cases hr
   refine ⟨by simp [Arr.WF, Arr.flat], ?_⟩
-  rw [sort_flat h along _ ka' k' hk']
+  rw [sort_flat h zero _ ka' k' hk']
   simp only [Arr.flat, List.mergeSort_of_pairwise (h.sorted_mergeSort a.elems)]
+
+/-- an axis outside the rank (after `normalize_axis`) is refused with an error value by all four operations -/
+theorem axis_out_of_range (zero : α) (a : Arr α) (ax : Int) (ka : KindArg) (k : SortKind) (hk : resolveKind ka = .ok k)
+    (isMax : Bool) (kd : Option Bool) (hax : a.ndim ≤ normalizeAxis a.ndim ax) :
+    Sort.sort c zero a (some ax) ka = .err .AxisOutOfBounds ∧
+    Sort.argsort c zero a (some ax) ka = .err .AxisOutOfBounds ∧
+    Sort.unique c zero a (some ax) = .err .AxisOutOfBounds ∧
+    Sort.argExtreme c zero isMax a (some ax) kd = .err .AxisOutOfBounds := by
+  simp only [Sort.sort, Sort.argsort, Sort.unique, Sort.argExtreme, Arr.countAxis, hk, Res.bind_ok,
+    applyAlongAxis_axis_err _ _ _ _ _ hax, Res.bind_err, and_self]
 
 /-! ## `argsort` -/
 
@@ -202,44 +219,33 @@ theorem argsort_kinds_equal (h : c.Lawful) (k k' : SortKind) (xs : List α) :
   unfold argsortFlat; rw [sorts_agree h k, sorts_agree h k']
 
 /-- public form, `axis = None`: the 1-D array of those positions -/
-theorem argsort_flat (h : c.Lawful) (along : Along α Nat) (a : Arr α) (ka : KindArg) (k : SortKind)
+theorem argsort_flat (h : c.Lawful) (zero : α) (a : Arr α) (ka : KindArg) (k : SortKind)
     (hk : resolveKind ka = .ok k) :
-    ∃ r, argsortFlat c k a.elems = .ok r ∧ Sort.argsort along c a none ka = .ok (Arr.flat r) := by
+    ∃ r, argsortFlat c k a.elems = .ok r ∧ Sort.argsort c zero a none ka = .ok (Arr.flat r) := by
   obtain ⟨r, hr, _⟩ := argsort_spec h k a.elems
   exact ⟨r, hr, by simp only [Sort.argsort, hk, Res.bind_ok, argsortLane, hr, Res.map]⟩
 
-/-- on rank-1 arrays (lane lifting `along1D`) `sort`, `argsort` and `unique` never panic, whatever axis and selector
-are passed (an out-of-range axis and an unknown selector are error values) -/
-theorem ops_1d_never_panic (h : c.Lawful) (a : Arr α) (axis : Option Int) (ka : KindArg) :
-    Sort.sort along1D c a axis ka ≠ .panic ∧ Sort.argsort along1D c a axis ka ≠ .panic ∧
-    Sort.unique along1D c a axis ≠ .panic := by
-  have hs : ∀ k, sortLane c k a = .ok (Arr.flat (a.elems.mergeSort c.le)) := fun k => by
-    simp only [sortLane, sorts_agree h k, Res.map]
-  have ha : ∀ k, ∃ r, argsortLane c k a = .ok (Arr.flat r) := fun k => by
-    obtain ⟨r, hr, _⟩ := argsort_spec h k a.elems
-    exact ⟨r, by simp only [argsortLane, hr, Res.map]⟩
-  refine ⟨?_, ?_, ?_⟩
-  · unfold Sort.sort
-    cases hk : resolveKind ka with
-    | panic => exact absurd hk (resolveKind_never_panics ka)
-    | err e => simp
-    | ok k =>
-      cases axis with
-      | none => simp [hs]
-      | some ax => simp only [Res.bind_ok, along1D]; split <;> simp [hs]
-  · unfold Sort.argsort
-    cases hk : resolveKind ka with
-    | panic => exact absurd hk (resolveKind_never_panics ka)
-    | err e => simp
-    | ok k =>
-      obtain ⟨r, hr⟩ := ha k
-      cases axis with
-      | none => simp [hr]
-      | some ax => simp only [Res.bind_ok, along1D]; split <;> simp [hr]
-  · unfold Sort.unique
-    cases axis with
-    | none => simp [uniqueLane]
-    | some ax => simp only [along1D, uniqueLane]; split <;> simp
+/-- **axis form, every axis of every rank**: the shape is kept and every lane of the answer is the `argsort` of the
+corresponding lane of the input (so `argsort_spec` describes each lane) -/
+theorem argsort_axis_spec (h : c.Lawful) (zero : α) (a : Arr α) (ax : Int) (ka : KindArg) (k : SortKind)
+    (hk : resolveKind ka = .ok k) (hwf : a.WF) (hnz : 0 ∉ a.shape) (hax : normalizeAxis a.ndim ax < a.ndim) :
+    ∃ r, Sort.argsort c zero a (some ax) ka = .ok r ∧ r.shape = a.shape ∧ r.WF ∧
+      ∀ cd, inRange a.shape cd = true →
+        argsortFlat c k (laneOf a (normalizeAxis a.ndim ax) cd) = .ok (laneOf r (normalizeAxis a.ndim ax) cd) := by
+  simp only [Sort.argsort, hk, Res.bind_ok]
+  -- the lane function as a total list function
+  let g : List α → List Nat := fun lane => match argsortFlat c k lane with | .ok r => r | _ => []
+  have hg : ∀ lane, argsortFlat c k lane = .ok (g lane) := by
+    intro lane
+    obtain ⟨r, hr, _⟩ := argsort_spec h k lane
+    simp only [g, hr]
+  obtain ⟨r, h1, h2, h3, h4⟩ := along_lanewise a zero (0 : Nat) _ (argsortLane c k) g hwf hax hnz
+    (fun lane _ => by
+      refine ⟨by simp only [argsortLane, Arr.flat, hg lane, Res.map], ?_⟩
+      obtain ⟨r, hr, hp, _⟩ := argsort_spec h k lane
+      have : g lane = r := by simp only [g, hr]
+      rw [this, hp.length_eq, List.length_range])
+  exact ⟨r, h1, h2, h3, fun cd hcd => by rw [h4 cd hcd]; exact hg _⟩
 
 /-! ## `argmax` / `argmin` -/
 
@@ -289,16 +295,16 @@ theorem argExtreme_nan (c : Cmp α) (isMax : Bool) (xs : List α) (i : Nat) (hi 
   unfold argExtremePos; rw [hi]
 
 /-- public form, `axis = None`: one-element 1-D array holding that position; the empty array is refused with an
-error value; `keepdims` only changes the shape (`[1]`, `[1,1]`, `[1,1,1]`, error above rank 3) -/
-theorem argExtreme_flat (h : c.Lawful) (along : Along α Nat) (isMax : Bool) (a : Arr α) :
-    (a.elems = [] → Sort.argExtreme along c isMax a none none = .err .ParameterError) ∧
+error value; `keepdims = Some(true)` only changes the shape (`atleast(ndim)`; shown here for rank 1) -/
+theorem argExtreme_flat (h : c.Lawful) (zero : α) (isMax : Bool) (a : Arr α) :
+    (a.elems = [] → Sort.argExtreme c zero isMax a none none = .err .ParameterError) ∧
     (a.elems ≠ [] → ∃ p, argExtremePos c isMax a.elems = .ok p ∧
-        Sort.argExtreme along c isMax a none none = .ok ⟨[p], [1]⟩ ∧
-        Sort.argExtreme along c isMax a none (some false) = .ok ⟨[p], [1]⟩ ∧
-        (a.ndim = 1 → Sort.argExtreme along c isMax a none (some true) = .ok ⟨[p], [1]⟩)) := by
+        Sort.argExtreme c zero isMax a none none = .ok ⟨[p], [1]⟩ ∧
+        Sort.argExtreme c zero isMax a none (some false) = .ok ⟨[p], [1]⟩ ∧
+        (a.ndim = 1 → Sort.argExtreme c zero isMax a none (some true) = .ok ⟨[p], [1]⟩)) := by
   constructor
   · intro he
-    simp [Sort.argExtreme, argExtremeLane, Arr.isEmpty, he]
+    simp [Sort.argExtreme, Arr.countAxis, argExtremeLane, Arr.isEmpty, he]
   · intro hne
     have hemp : a.isEmpty = false := by
       simp only [Arr.isEmpty, beq_eq_false_iff_ne, ne_eq, List.length_eq_zero_iff]; exact hne
@@ -307,10 +313,57 @@ theorem argExtreme_flat (h : c.Lawful) (along : Along α Nat) (isMax : Bool) (a 
       · obtain ⟨p, _, hp, _⟩ := argmin_spec h a.elems hne; exact ⟨p, hp⟩
       · obtain ⟨p, _, hp, _⟩ := argmax_spec h a.elems hne; exact ⟨p, hp⟩
     refine ⟨p, hp, ?_, ?_, ?_⟩
-    · simp [Sort.argExtreme, argExtremeLane, hemp, hp]
-    · simp [Sort.argExtreme, argExtremeLane, hemp, hp]
+    · simp [Sort.argExtreme, Arr.countAxis, argExtremeLane, hemp, hp, Arr.keepdimsTail, Arr.single]
+    · simp [Sort.argExtreme, Arr.countAxis, argExtremeLane, hemp, hp, Arr.keepdimsTail, Arr.single]
     · intro h1
-      simp [Sort.argExtreme, argExtremeLane, hemp, hp, h1, atleastSingle]
+      simp [Sort.argExtreme, Arr.countAxis, argExtremeLane, hemp, hp, h1, Arr.keepdimsTail, Arr.single,
+        Arr.atleast, Arr.atleast1d]
+
+/-- **axis form, every axis of every rank**: with `keepdims = Some(true)` the axis is kept with length 1, otherwise
+it is removed; the value at every position of the remaining axes is the position `argmax` / `argmin` reports on the
+lane through that position (so `argmax_spec` / `argmin_spec` describe it: first position of an extreme element) -/
+theorem argExtreme_axis_spec (h : c.Lawful) (zero : α) (isMax : Bool) (a : Arr α) (ax : Int) (kd : Option Bool)
+    (hwf : a.WF) (hnz : 0 ∉ a.shape) (hax : normalizeAxis a.ndim ax < a.ndim) :
+    ∃ r, Sort.argExtreme c zero isMax a (some ax) kd = .ok r ∧
+      r.shape = (if kd = some true then a.shape.set (normalizeAxis a.ndim ax) 1
+                 else a.shape.eraseIdx (normalizeAxis a.ndim ax)) ∧
+      r.WF ∧
+      ∀ cd, inRange (a.shape.eraseIdx (normalizeAxis a.ndim ax)) cd = true →
+        ∃ p, argExtremePos c isMax
+               (laneOf a (normalizeAxis a.ndim ax) (cd.insertIdx (normalizeAxis a.ndim ax) 0)) = .ok p ∧
+          r.get? (if kd = some true then cd.insertIdx (normalizeAxis a.ndim ax) 0 else cd) = some p := by
+  have hpos : 0 < a.shape.getD (normalizeAxis a.ndim ax) 0 := getD_mem_pos _ _ hax hnz
+  -- the 1-D body on a non-empty lane
+  have hbody : ∀ lane : List α, lane ≠ [] → ∃ p, argExtremePos c isMax lane = .ok p ∧
+      argExtremeLane c isMax (Arr.flat lane) kd = .ok (Arr.single p) := by
+    intro lane hne
+    have hemp : (Arr.flat lane).isEmpty = false := by
+      simp only [Arr.isEmpty, Arr.flat, beq_eq_false_iff_ne, ne_eq, List.length_eq_zero_iff]; exact hne
+    obtain ⟨p, hp⟩ : ∃ p, argExtremePos c isMax lane = .ok p := by
+      cases isMax
+      · obtain ⟨p, _, hp, _⟩ := argmin_spec h lane hne; exact ⟨p, hp⟩
+      · obtain ⟨p, _, hp, _⟩ := argmax_spec h lane hne; exact ⟨p, hp⟩
+    refine ⟨p, hp, ?_⟩
+    have hp' : argExtremePos c isMax (Arr.flat lane).elems = .ok p := hp
+    by_cases hkd : kd = some true
+    · simp [argExtremeLane, hemp, hp', hkd, Arr.keepdimsTail, Arr.flat, Arr.ndim, Arr.atleast, Arr.atleast1d]
+    · simp [argExtremeLane, hemp, hp', hkd, Arr.keepdimsTail]
+  obtain ⟨r, h1, h2, h3, h4⟩ := countAxis_single a zero (0 : Nat) ax kd (argExtremeLane c isMax) hwf hnz hax
+    (fun lane hl => by
+      obtain ⟨p, _, hp⟩ := hbody lane (by intro h0; rw [h0] at hl; simp at hl; omega)
+      exact ⟨_, hp, rfl⟩)
+  refine ⟨r, h1, h2, h3, ?_⟩
+  intro cd hcd
+  obtain ⟨y, v, e1, e2, e3⟩ := h4 cd hcd
+  have hne : laneOf a (normalizeAxis a.ndim ax) (cd.insertIdx (normalizeAxis a.ndim ax) 0) ≠ [] := by
+    intro h0
+    rw [h0] at e1
+    simp [argExtremeLane, Arr.isEmpty, Arr.flat] at e1
+  obtain ⟨p, hp1, hp2⟩ := hbody _ hne
+  rw [hp2] at e1
+  cases e1
+  simp only [Arr.single, List.cons.injEq, and_true] at e2
+  exact ⟨p, hp1, by rw [e3, e2]⟩
 
 /-! ## `unique` -/
 
@@ -325,8 +378,8 @@ theorem unique_eq_dedup_sort (h : c.Lawful) (k : SortKind) (xs : List α) :
     sortFlat c k xs = .ok (xs.mergeSort c.le) ∧ uniqueFlat c xs = dedup c (xs.mergeSort c.le) :=
   ⟨sorts_agree h k xs, rfl⟩
 
-theorem unique_flat (along : Along α α) (a : Arr α) :
-    Sort.unique along c a none = .ok (Arr.flat (uniqueFlat c a.elems)) := rfl
+theorem unique_flat (zero : α) (a : Arr α) :
+    Sort.unique c zero a none = .ok (Arr.flat (uniqueFlat c a.elems)) := rfl
 
 /-! ## the pinned defect, as a theorem about the pinned statements -/
 
